@@ -813,6 +813,8 @@ addmember(struct structbuilder *b, struct qualtype mt, char *name, int align, un
 		}
 		if (t->kind == TYPESTRUCT) {
 			m->offset = ALIGNUP(t->size, align);
+			if (m->offset < t->size || mt.type->size > ULLONG_MAX - m->offset)
+				error(&tok.loc, "struct is too large");
 			t->size = m->offset + mt.type->size;
 		} else {
 			m->offset = 0;
